@@ -1,4 +1,5 @@
 """C20 - work linear in DAG size and independent of nesting depth."""
+import os
 import sys
 import time
 import warnings
@@ -155,8 +156,16 @@ def wrap_walker(w, counter):
         w.functions[k] = g
 
 
+class WorkBudgetExceeded(Exception):
+    pass
+
+
 class CodeCounter(object):
-    """PY_START counts for walk_* code objects of TreeWalkers / the parser."""
+    """Counts, through sys.monitoring PY_START, every Python function entry
+    inside the pysmt package (`work`) and, separately, entries of walk_*
+    callbacks / parser atoms (`walks`).  Class-level: all walker instances
+    are seen, also the ones a procedure creates internally.  A budget aborts
+    runaway work (logical steps, not wall-clock)."""
 
     def __init__(self):
         self.mon = sys.monitoring
@@ -166,24 +175,43 @@ class CodeCounter(object):
         except ValueError:
             pass
         self.counter = Counter()
+        self.work = 0
+        self.walks = 0
+        self.budget = None
         self.active = False
+        self.root = os.path.join(common.REPO, 'pysmt') + os.sep
         self.mon.register_callback(self.tool, self.mon.events.PY_START,
                                    self.cb)
-        self.codes = set()
+        self.mon.set_events(self.tool, self.mon.events.PY_START)
 
-    def watch(self, cls, names=None, prefix='walk_'):
-        for klass in cls.__mro__:
-            for k, v in vars(klass).items():
-                if hasattr(v, '__code__') and (
-                        k.startswith(prefix) or (names and k in names)):
-                    if v.__code__ not in self.codes:
-                        self.codes.add(v.__code__)
-                        self.mon.set_local_events(
-                            self.tool, v.__code__, self.mon.events.PY_START)
+    def watch(self, *a, **k):
+        pass
 
     def cb(self, code, off):
-        if self.active:
+        if not code.co_filename.startswith(self.root):
+            return self.mon.DISABLE
+        if not self.active:
+            return None
+        self.work += 1
+        nm = code.co_name
+        if nm.startswith('walk_') or nm in ('atom', '_enter_let',
+                                            '_exit_let', 'res'):
+            self.walks += 1
             self.counter.n += 1
+        if self.budget is not None and self.work > self.budget:
+            self.active = False
+            raise WorkBudgetExceeded(self.work)
+        return None
+
+    def start(self, budget):
+        self.work = self.walks = 0
+        self.counter.n = 0
+        self.budget = budget
+        self.active = True
+
+    def stop(self):
+        self.active = False
+        return self.work, self.walks
 
 
 def procedures(env, cc):
@@ -268,13 +296,7 @@ def procedures(env, cc):
     P['get_logic'] = logic
 
     def smt_print(f):
-        cc.counter.n = 0
-        cc.active = True
-        try:
-            s = f.to_smtlib(daggify=True)
-        finally:
-            cc.active = False
-        return cc.counter.n, s
+        return None, f.to_smtlib(daggify=True)
     P['to_smtlib_dag'] = smt_print
 
     def reparse(f):
@@ -283,18 +305,11 @@ def procedures(env, cc):
             warnings.simplefilter('ignore')
             smtlibscript_from_formula(f).serialize(buf, daggify=True)
         txt = buf.getvalue()
-        cc.counter.n = 0
-        cc.active = True
-        created0 = M.NODE_MONITOR.created
-        try:
-            sc = SmtLibParser(env).get_script(StringIO(txt))
-        finally:
-            cc.active = False
+        sc = SmtLibParser(env).get_script(StringIO(txt))
         g = sc.get_last_formula()
         if g is not f:
             raise AssertionError('re-parse returned another formula')
-        # work measure: atoms read + nodes requested from the manager
-        return cc.counter.n + (M.NODE_MONITOR.created - created0), None
+        return None, None
     P['reparse_dag'] = reparse
     return P
 
@@ -319,16 +334,12 @@ def applicable(proc, fam):
 
 def run(rep):
     quick = rep.tier == 'quick'
-    N1, N2 = (40, 80) if quick else (100, 200)
-    DEEP = 3000 if quick else 20000
+    N1, N2 = (30, 60) if quick else (100, 200)
+    DEEP = 2000 if quick else 20000
     C = 4
     cc = CodeCounter()
     import pysmt.smtlib.printers as SP
     import pysmt.smtlib.parser.parser as PP
-    cc.watch(SP.SmtDagPrinter)
-    cc.watch(SP.SmtPrinter)
-    cc.watch(PP.SmtLibParser, names=('atom', '_enter_let', '_exit_let'),
-             prefix='_cmd_')
     M.NODE_MONITOR.install()
     env = common.fresh_env()
     fams = sorted(families(env))
@@ -355,13 +366,31 @@ def run(rep):
                     e2 = common.fresh_env()
                     P2 = procedures(e2, cc)
                     if proc == 'construction':
-                        k, f = run_construction(rep, e2, fam, n)
+                        cc.start(None)
+                        try:
+                            k, f = run_construction(rep, e2, fam, n)
+                        finally:
+                            work, walks = cc.stop()
+                        size = dag_size(f)
                     else:
                         f = build_family(e2, fam, n, diamond=True)
-                        t0 = time.time()
-                        k, _ = P2[proc](f)
-                    size = dag_size(f)
-                    counts.append((n, size, k))
+                        size = dag_size(f)
+                        cc.start(3000 * size + 50000)
+                        try:
+                            k, _ = P2[proc](f)
+                        finally:
+                            work, walks = cc.stop()
+                        if k is None:
+                            k = walks
+                    counts.append((n, size, k, work))
+            except WorkBudgetExceeded as e:
+                rep.violation('C20/work-budget-exceeded/%s/%s' % (proc, fam),
+                              '%s on a %d-level %s diamond (%d nodes) was '
+                              'aborted after %s function entries inside '
+                              'pysmt (budget 3000 per node)' % (
+                                  proc, n, fam, size, e),
+                              {'proc': proc, 'fam': fam})
+                continue
             except RecursionError as e:
                 rep.violation('C20/recursion/%s/%s' % (proc, fam),
                               '%s on a %d-level %s diamond: RecursionError' %
@@ -377,33 +406,49 @@ def run(rep):
             rep.count('diamond_measurements')
             rep.case(key=(proc, fam),
                      sample='%s on %s diamonds: %s (levels, dag nodes, '
-                     'callbacks)' % (proc, fam, counts)
+                     'callbacks, pysmt function entries)' % (proc, fam,
+                                                            counts)
                      if idx % 23 == 0 else None)
-            (n1, s1, k1), (n2, s2, k2) = counts
+            (n1, s1, k1, w1), (n2, s2, k2, w2) = counts
             if k2 == 0:
                 rep.count('zero_callbacks_observed')
                 rep.violation('C20/inconclusive-counter/%s' % proc,
                               'no callback counted for %s' % proc)
                 continue
             rep.count('callbacks_counted', k1 + k2)
+            rep.count('function_entries_counted', w1 + w2)
             # token-level measures (printer / parser) see each node a few
             # more times (let name, operator, references): larger constant
-            cc_ = 12 if proc in ('reparse_dag', 'to_smtlib_dag') else C
+            cc_ = 20 if proc in ('reparse_dag', 'to_smtlib_dag') else C
             if k2 > cc_ * s2 or (k1 > 0 and k2 > 2.5 * k1):
                 rep.violation(
                     'C20/superlinear/%s/%s' % (proc, fam),
                     '%s on %s diamonds: %d callbacks for %d nodes (%d '
                     'levels), %d callbacks for %d nodes (%d levels); bound '
                     'is %d x nodes and 2.5x growth' % (
-                        proc, fam, k1, s1, n1, k2, s2, n2, C),
+                        proc, fam, k1, s1, n1, k2, s2, n2, cc_),
+                    {'proc': proc, 'fam': fam})
+            elif w1 > 200 and w2 > 6.0 * w1 * (float(s2) / (2 * s1)):
+                rep.violation(
+                    'C20/superlinear-work/%s/%s' % (proc, fam),
+                    '%s on %s diamonds: %d function entries inside pysmt '
+                    'for %d nodes, %d for %d nodes (more than 6x when the '
+                    'DAG doubles: worse than quadratic)' % (proc, fam, w1, s1, w2, s2),
                     {'proc': proc, 'fam': fam})
             # ---- (2) deep chains under the default recursion limit
             if proc in ('size_TREE_NODES', 'size_DEPTH', 'size_SYMBOLS'):
                 continue
             depth = DEEP
-            if proc in ('simplify', 'nnf', 'prenex', 'aig') and \
-                    fam in ('and', 'or', 'not'):
-                depth = min(DEEP, 3000)      # quadratic flattening
+            quadratic = False
+            if (proc in ('simplify', 'nnf', 'prenex', 'aig') and
+                    fam in ('and', 'or', 'not')) or (
+                    proc in ('simplify', 'times_distributor') and
+                    fam.split('_')[0] in ('plus', 'minus', 'times')):
+                # flattening of nested n-ary operators is quadratic in the
+                # chain length (callbacks stay linear): shorter chain, still
+                # deeper than the recursion limit
+                depth = min(DEEP, 1500)
+                quadratic = True
             try:
                 e3 = common.fresh_env()
                 P3 = procedures(e3, cc)
@@ -411,8 +456,19 @@ def run(rep):
                     f = build_family(e3, fam, depth, diamond=False)
                 else:
                     f = build_family(e3, fam, depth, diamond=False)
-                    P3[proc](f)
+                    cc.start(None if quadratic
+                             else 3000 * (4 * depth + 10) + 50000)
+                    try:
+                        P3[proc](f)
+                    finally:
+                        cc.stop()
                 rep.count('deep_chains_ok')
+            except WorkBudgetExceeded as e:
+                rep.violation('C20/work-budget-exceeded/%s/%s' % (proc, fam),
+                              '%s on a %s chain of depth %d was aborted '
+                              'after %s function entries inside pysmt' % (
+                                  proc, fam, depth, e),
+                              {'proc': proc, 'fam': fam})
             except RecursionError:
                 rep.violation('C20/recursion/%s/%s' % (proc, fam),
                               '%s on a %s chain of depth %d: RecursionError '
